@@ -105,6 +105,8 @@ class C06(OptEngineBase):
                     "verbose": rng.random() < 0.4,
                     "stdout": {"kind": rng.choice(["memory", "memory", "none", "slow"])},
                 })
+                if rng.random() < 0.08:
+                    ops[-1].update({"use_defaults": True, "tol": 1e-4, "max_iter": 20, "fix_first_pose": True, "verbose": True})
         case = {"config": config, "workload": workload, "meta": meta, "ops": ops, "faults": []}
         if rng.random() < 0.6:
             dry = self.execute(copy.deepcopy(case), dry=True)
@@ -170,8 +172,11 @@ class C06(OptEngineBase):
                     raised = None
                     result = None
                     try:
-                        result = g.optimize(tol=op["tol"], max_iter=op["max_iter"], fix_first_pose=op["fix_first_pose"],
-                                            verbose=op["verbose"])
+                        if op.get("use_defaults"):
+                            result = g.optimize()
+                        else:
+                            result = g.optimize(tol=op["tol"], max_iter=op["max_iter"], fix_first_pose=op["fix_first_pose"],
+                                                verbose=op["verbose"])
                     except Exception as e:  # noqa
                         raised = e
                     after = poses_snapshot(g)
